@@ -322,9 +322,60 @@ def floored(e):
     return None
 
 
+def identity_shortcut(ctx, fi, stmts):
+    """if <Q is an identity>: v = ones else: v = lsmr(Q.T, ones)[0]   ->   v = lsmr(Q.T, ones)[0]
+    For an identity the solve returns the all-ones vector anyway, so the shortcut changes nothing - PROVIDED the test really implies Q = I:
+    a DIA matrix, square, one diagonal at offset 0, all stored values equal to 1.  A test that leaves the values open (e.g. only counts the
+    stored entries) also passes 3*I, for which `ones` is not a solution: that measurement then fails the row-space test and is dropped."""
+    changed = True
+    while changed:
+        changed = False
+        for blk in [stmts] + [getattr(n, f) for n in ast.walk(ast.Module(body=stmts, type_ignores=[])) for f in ('body', 'orelse')
+                              if isinstance(getattr(n, f, None), list) and getattr(n, f) and isinstance(getattr(n, f)[0], ast.stmt)]:
+            for i, st in enumerate(blk):
+                if not (isinstance(st, ast.If) and len(st.body) == 1 and len(st.orelse) == 1 and isinstance(st.body[0], ast.Assign)
+                        and isinstance(st.orelse[0], ast.Assign) and U(st.body[0].targets[0]) == U(st.orelse[0].targets[0])):
+                    continue
+                a, b = st.body[0].value, st.orelse[0].value
+                solve = b
+                if not (isinstance(solve, ast.Subscript) and isinstance(solve.value, ast.Call) and U(solve.value.func).split('.')[-1] in SOLVERS):
+                    continue
+                rhs = solve.value.args[1] if len(solve.value.args) > 1 else None
+                Qt = solve.value.args[0]
+                if rhs is None or U(a) != U(rhs) or not (isinstance(Qt, ast.Attribute) and Qt.attr == 'T'):
+                    continue
+                Q = U(Qt.value)
+                t = st.test
+                if isinstance(t, ast.Name):
+                    ds = [x for x in blk[:i] if isinstance(x, ast.Assign) and len(x.targets) == 1 and U(x.targets[0]) == t.id]
+                    if ds:
+                        t = ds[-1].value
+                conj = t.values if isinstance(t, ast.BoolOp) and isinstance(t.op, ast.And) else [t]
+                texts = {U(c).replace(' ', '') for c in conj}
+                facts = {
+                    'dia': any(x in ('sparse.isspmatrix_dia(%s)' % Q, 'isspmatrix_dia(%s)' % Q, "%s.format=='dia'" % Q) for x in texts),
+                    'square': any(x in ('%s.shape[0]==%s.shape[1]' % (Q, Q), '%s.shape[1]==%s.shape[0]' % (Q, Q)) for x in texts),
+                    'main diagonal': any(x in ('%s.offsets.tolist()==[0]' % Q, 'list(%s.offsets)==[0]' % Q) for x in texts),
+                    'unit values': any(x in ('bool((%s.data==1).all())' % Q, '(%s.data==1).all()' % Q, 'np.all(%s.data==1)' % Q) for x in texts),
+                }
+                if not (facts['dia'] or facts['main diagonal']):
+                    continue          # not an identity shortcut at all
+                ok = all(facts.values())
+                ctx.ob('same-system', fi, st, ok,
+                       'the solve is skipped (v = %s) when `%s`; that is the solution only if the test implies %s is the identity (DIA format, square, '
+                       'one diagonal at offset 0, all stored values 1); established: %s' % (U(a), U(t)[:90], Q, ', '.join(k for k, v in facts.items() if v) or 'nothing'),
+                       construct='identity shortcut of the solve')
+                blk[i:i + 1] = [st.orelse[0]]
+                changed = True
+                break
+            if changed:
+                break
+    return stmts
+
+
 def check_features(ctx, fi, block, total):
     where = fi.qualname
-    stmts = clone(block)
+    stmts = identity_shortcut(ctx, fi, clone(block))
     if total is None:
         total = '__total__'
         stmts, _ = single_exit(stmts, total)
